@@ -525,16 +525,18 @@ export class DiplomatReceiveBuf {
     #align;
 
     #hasResult;
+    #resultFlagOffset;
 
     #buffer;
 
-    constructor(wasm, size, align, hasResult) {
+    constructor(wasm, size, align, hasResult, resultFlagOffset = size - 1) {
         this.#wasm = wasm;
 
         this.#size = size;
         this.#align = align;
 
         this.#hasResult = hasResult;
+        this.#resultFlagOffset = resultFlagOffset;
 
         this.#buffer = this.#wasm.diplomat_alloc(this.#size, this.#align);
 
@@ -552,11 +554,11 @@ export class DiplomatReceiveBuf {
     /**
      * Only for when a DiplomatReceiveBuf is allocating a buffer for an `Option<>` or a `Result<>` type.
      * 
-     * This just checks the last byte for a successful result (assuming that Rust's compiler does not change).
+     * This checks the `is_ok` byte, which sits right after the (padded) payload union.
      */
     get resultFlag() {
         if (this.#hasResult) {
-            return resultFlag(this.#wasm, this.#buffer, this.#size - 1);
+            return resultFlag(this.#wasm, this.#buffer, this.#resultFlagOffset);
         } else {
             return true;
         }
